@@ -108,9 +108,10 @@ theorem prepare_ok {c : Config} {r : Resolved} (h : prepare c = .ok r) :
             (gpUser.getD (gpTypeOf (nlUser.getD (computeNLandmarks gpUser c.n c.landmarks))
               (some (rankUser.getD (computeRank gpUser))) c.n)) c.n
             (nlUser.getD (computeNLandmarks gpUser c.n c.landmarks)) c.landmarks with
-        | error e => rw [h4] at h; simp at h
+        | error e => rw [h4] at h; split_ifs at h
         | ok u =>
           rw [h4] at h
+          split_ifs at h
           simp only [Except.ok.injEq] at h
           subst h
           exact ⟨nlUser, rankUser, gpUser, rfl, rfl, rfl, rfl, rfl, rfl, h4⟩
